@@ -215,7 +215,6 @@ def procSpec (c : Cfg) (stopUsed : Bool) (obs : String) : Option String :=
     match (field ts "res").bind parseRess, (field ts "closed").bind parseBool, (field ts "wait").bind parseBool with
     | some res, some closed, some wait =>
       let want := c.ops.map eval
-      let anyPan := c.ops.any Op.isPan
       let fin := match field ts "t" with
         | some t => ((t.splitOn "/").getLast?).getD ""
         | none => ""
@@ -226,7 +225,8 @@ def procSpec (c : Cfg) (stopUsed : Bool) (obs : String) : Option String :=
       else if c.wantClose && producerDone &&
               !((finL.take t).all (· == 'D') && finL.getD (t + 1) 'D' == 'D' && finL.getD (t + 3) 'D' == 'D' && closed && wait) then
         some "shutdown_clean: queue closed but a worker, the collector or Wait did not finish"
-      else if c.wantClose && producerDone && !stopUsed && !anyPan && !subMultiset want res then
+      else if c.wantClose && producerDone && !stopUsed && (c.ops.filter Op.isPan).length < c.threads && !subMultiset want res then
+        -- fewer panicking operations than workers: a worker survives and drains the queue
         some "each_op_one_result: an operation without a result"
       else none
     | _, _, _ => some "unparsable-observation"
@@ -272,13 +272,13 @@ def handlePU (inp : List String) (obs : String) : Verdict :=
         | some res, some closed, some wait =>
           let want := sortRes (ops.map eval)
           if !subMultiset res want then fail "each_op_one_result: a result that no operation produced, or a duplicate" tags
-          else if !anyPan && !subMultiset want res then fail "each_op_one_result: an operation without a result" tags
-          else if !anyPan && !(closed && wait) then fail "shutdown_clean" tags
+          else if (ops.filter Op.isPan).length < threads && !subMultiset want res then fail "each_op_one_result: an operation without a result" tags
+          else if !(closed && wait) then fail "shutdown_clean" tags
           else
             -- model: the lowest-first schedule of the model (any schedule gives this multiset)
             let m := runMacro (procMacro c) [] (procDrainOrder threads)
             let mo := s!"res={showRess (sortRes m.st.delivered)} closed={showBool (m.st.cpc == .closedSeen)} wait={showBool m.st.waitReturned}"
-            if anyPan || mo == obs then ok tags else diff mo tags
+            if (ops.filter Op.isPan).length ≥ threads || mo == obs then ok tags else diff mo tags
         | _, _, _ => fail "unparsable-observation" tags
     | _, _, _, _, _ => bad "pu"
   | _ => bad "pu"
